@@ -2,6 +2,9 @@
 #include <occa/internal/modes/serial/memory.hpp>
 #include <occa/internal/modes/serial/buffer.hpp>
 #include <occa/internal/utils/sys.hpp>
+#ifdef LIBOCCA_OCCA_VERIF
+#include <occa/internal/verif.hpp>
+#endif
 
 namespace occa {
   modeBuffer_t::modeBuffer_t(modeDevice_t *modeDevice_,
@@ -12,10 +15,16 @@ namespace occa {
     modeDevice(modeDevice_),
     size(size_),
     isWrapped(false) {
+#ifdef LIBOCCA_OCCA_VERIF
+    verif::liveAdd(verif::clsBuffer, 1);
+#endif
     modeDevice->addMemoryRef(this);
   }
 
   modeBuffer_t::~modeBuffer_t() {
+#ifdef LIBOCCA_OCCA_VERIF
+    verif::liveAdd(verif::clsBuffer, -1);
+#endif
     // destroy all slices
     while (modeMemoryRing.head) {
       modeMemory_t *mem = (modeMemory_t*) modeMemoryRing.head;
